@@ -24,18 +24,25 @@ package atree
 
 //@ # ghost protocol for C10: notified counts calls of the parent-notification step; it is defined by notifyParentIfNeeded
 //@ ghost notified : int
+//@ # updFail: number of parent-updater invocations that returned an error (ghost event counter)
+//@ ghost updFail : int
 
 //@ # a parent updater may rewrite the parent's tree and its storage; it does not touch the child that calls it (A2/F)
 //@ functype parentUpdater() (found, err)
-//@   modifies heap
+//@   ghostdef updFail == old(updFail) + ite(err != nil, 1, 0)
+//@   modifies heap, ghost.updFail
 
-//@ func (a *Array) notifyParentIfNeeded() (err)  serves C10
+//@ func (a *Array) notifyParentIfNeeded() (err)  serves C01 C10 C11
 //@   ghostdef notified == old(notified) + 1
 //@   ensures err == nil && old(a.parentUpdater) == nil ==> a.parentUpdater == nil
-//@   modifies heap, ghost.notified
+//@   # the notification fails only when the updater itself fails: a handle that the parent no longer holds (updater reports
+//@   # not-found) is not an error of the operation on the child
+//@   ensures[C01 C10 C11] err != nil ==> updFail > old(updFail)
+//@   modifies heap, ghost.notified, ghost.updFail
 
 //@ func (a *Array) splitRoot() (err)  serves C01 C03 C05 C06 C09
 //@   requires a.Storage != nil && a.root != nil && isArr(a.root) && sto[hdrOf(a.root).slabID] == a.root && hdrOf(a.root).slabID != SlabIDUndefined
+//@   assume has(issued, hdrOf(a.root).slabID) because "every identifier in use was handed out by the storage (assumed of the storage)"
 //@   requires is(a.root, *ArrayDataSlab) ==> wfADS(as(a.root, *ArrayDataSlab)) && elemsFit(as(a.root, *ArrayDataSlab)) && !as(a.root, *ArrayDataSlab).inlined &&
 //@        as(a.root, *ArrayDataSlab).extraData != nil && as(a.root, *ArrayDataSlab).header.size > maxThreshold &&
 //@        as(a.root, *ArrayDataSlab).header.size <= maxThreshold + maxInlineArrayElementSize
@@ -52,7 +59,7 @@ package atree
 //@   ensures[C01 C03] err == nil ==> has(stored, a.root) && has(stored, sto[as(a.root, *ArrayMetaDataSlab).childrenHeaders[0].slabID]) && has(stored, sto[as(a.root, *ArrayMetaDataSlab).childrenHeaders[1].slabID])
 //@   modifies a.root, ArrayDataSlab.elements, ArrayDataSlab.header, ArrayDataSlab.next, ArrayDataSlab.extraData,
 //@        ArrayMetaDataSlab.childrenHeaders, ArrayMetaDataSlab.childrenCountSum, ArrayMetaDataSlab.header, ArrayMetaDataSlab.extraData,
-//@        ghost.sto, ghost.stored, ghost.touched, alloc
+//@        ghost.sto, ghost.issued, ghost.stored, ghost.touched, alloc
 
 //@ func (a *Array) promoteChildAsNewRoot(childID) (err)  serves C01 C03 C05 C06 C09
 //@   requires a.Storage != nil && is(a.root, *ArrayMetaDataSlab) && isArr(sto[childID]) && sto[childID] != a.root && childID != hdrOf(a.root).slabID &&
@@ -64,7 +71,7 @@ package atree
 //@        as(a.root, *ArrayDataSlab).extraData == old(as(a.root, *ArrayMetaDataSlab).extraData)
 //@   ensures[C09] err == nil ==> sto[childID] == nil && sto[hdrOf(a.root).slabID] == a.root
 //@   ensures[C01 C03] err == nil ==> has(stored, a.root)
-//@   modifies a.root, ArrayDataSlab.header, ArrayDataSlab.extraData, ArrayMetaDataSlab.header, ArrayMetaDataSlab.extraData, ghost.sto, ghost.stored, ghost.touched, alloc
+//@   modifies a.root, ArrayDataSlab.header, ArrayDataSlab.extraData, ArrayMetaDataSlab.header, ArrayMetaDataSlab.extraData, ghost.sto, ghost.issued, ghost.stored, ghost.touched, alloc
 
 //@ # ---- notification protocol (C10) and root identity (C01) at the container level
 
@@ -82,26 +89,26 @@ package atree
 //@   assume rootReady(a) because "tree invariant at the root (composition)"
 //@   ensures[C10] err == nil ==> notified > old(notified)
 //@   ensures[C11] err == nil && contV(value) ==> has(a.mutableElementIndex, vvid(unwV(value))) && a.mutableElementIndex[vvid(unwV(value))] == index
-//@   modifies heap, ghost.sto, ghost.stored, ghost.touched, ghost.notified, alloc
+//@   modifies heap, ghost.sto, ghost.issued, ghost.stored, ghost.touched, ghost.notified, ghost.updFail, alloc
 
 //@ func (a *Array) Insert(index, value) (err)  serves C01 C10 C18
 //@   requires value != nil
 //@   assume rootReady(a) because "tree invariant at the root (composition)"
 //@   ensures[C10] err == nil ==> notified > old(notified)
 //@   ensures[C18] old(hdrOf(a.root).count) == 4294967295 ==> err != nil && isUser(err) && a.root == old(a.root) && sto == old(sto) && touched == old(touched)
-//@   modifies heap, ghost.sto, ghost.stored, ghost.touched, ghost.notified, alloc
+//@   modifies heap, ghost.sto, ghost.issued, ghost.stored, ghost.touched, ghost.notified, ghost.updFail, alloc
 
 //@ func (a *Array) remove(index) (v, err)  serves C01 C10
 //@   assume rootReady(a) because "tree invariant at the root (composition)"
 //@   ensures[C10] err == nil ==> notified > old(notified)
-//@   modifies heap, ghost.sto, ghost.stored, ghost.touched, ghost.notified, alloc
+//@   modifies heap, ghost.sto, ghost.issued, ghost.stored, ghost.touched, ghost.notified, ghost.updFail, alloc
 
-//@ func (a *Array) SetType(typeInfo) (err)  serves C01 C03 C08 C10
+//@ func (a *Array) SetType(typeInfo) (err)  serves C01 C03 C08 C10 C11
 //@   requires a.Storage != nil && isArr(a.root)
 //@   requires ite(is(a.root, *ArrayDataSlab), as(a.root, *ArrayDataSlab).extraData != nil, as(a.root, *ArrayMetaDataSlab).extraData != nil)
 //@   ensures[C10] err == nil && old(ite(is(a.root, *ArrayDataSlab), as(a.root, *ArrayDataSlab).inlined, false)) ==> notified > old(notified)
-//@   ensures[C01 C03 C08] err == nil && !old(ite(is(a.root, *ArrayDataSlab), as(a.root, *ArrayDataSlab).inlined, false)) ==> has(stored, a.root)
-//@   modifies heap, ghost.sto, ghost.stored, ghost.touched, ghost.notified, alloc
+//@   ensures[C01 C03 C08 C11] err == nil && !old(ite(is(a.root, *ArrayDataSlab), as(a.root, *ArrayDataSlab).inlined, false)) ==> has(stored, a.root)
+//@   modifies heap, ghost.sto, ghost.issued, ghost.stored, ghost.touched, ghost.notified, ghost.updFail, alloc
 
 //@ # ---- child-index tracking (C10/C11): entries at or after an insertion point move up, entries after a removal point move down
 //@ func (a *Array) incrementIndexFrom(index) (err)  serves C10 C11
@@ -127,6 +134,8 @@ package atree
 //@   pure
 
 //@ iface mutableValueNotifier.ValueID() (id)
+//@   conform all
+//@   serves C10 C11
 //@   ensures id == vvid(recv)
 //@   pure
 
@@ -165,7 +174,7 @@ package atree
 //@   ensures[C09] err == nil && is(a.root, *ArrayDataSlab) && as(a.root, *ArrayDataSlab).inlined && !old(as(a.root, *ArrayDataSlab).inlined) ==> sto[as(a.root, *ArrayDataSlab).header.slabID] == nil
 //@   ensures[C09] err == nil && is(a.root, *ArrayDataSlab) && !as(a.root, *ArrayDataSlab).inlined && old(as(a.root, *ArrayDataSlab).inlined) ==> sto[as(a.root, *ArrayDataSlab).header.slabID] == a.root && has(stored, a.root)
 //@   ensures a.root == old(a.root)
-//@   modifies as(a.root, *ArrayDataSlab).header, as(a.root, *ArrayDataSlab).inlined, ghost.sto, ghost.stored, ghost.touched, alloc
+//@   modifies as(a.root, *ArrayDataSlab).header, as(a.root, *ArrayDataSlab).inlined, ghost.sto, ghost.issued, ghost.stored, ghost.touched, alloc
 
 //@ func (a *ArrayDataSlab) Inlinable(maxInlineSize) (r)  serves C10
 //@   requires a.header.size >= 5 && a.header.size <= 4294967000
@@ -178,14 +187,14 @@ package atree
 //@   ensures old(a.inlined) ==> err != nil && isFatal(err)
 //@   ensures err == nil ==> a.inlined && a.header.size == old(a.header.size) - 5 + 17 && sto == upd(old(sto), a.header.slabID, nil) && a.header.slabID == old(a.header.slabID)
 //@   ensures err != nil ==> a.header == old(a.header) && a.inlined == old(a.inlined) && categorised(err)
-//@   modifies a.header, a.inlined, ghost.sto, ghost.touched, alloc
+//@   modifies a.header, a.inlined, ghost.sto, ghost.issued, ghost.touched, alloc
 
 //@ func (a *ArrayDataSlab) Uninline(storage) (err)  serves C06 C09 C10
 //@   requires storage != nil && a.header.size >= 17 && a.header.size <= 4294967000
 //@   ensures !old(a.inlined) ==> err != nil && isFatal(err) && a.header == old(a.header)
 //@   ensures old(a.inlined) ==> !a.inlined && a.header.size == old(a.header.size) - 17 + 5 && a.header.slabID == old(a.header.slabID)
 //@   ensures err == nil ==> sto[a.header.slabID] == a && has(stored, a)
-//@   modifies a.header, a.inlined, ghost.sto, ghost.stored, ghost.touched, alloc
+//@   modifies a.header, a.inlined, ghost.sto, ghost.issued, ghost.stored, ghost.touched, alloc
 
 //@ # bulk pop empties the array; when the array lives inline in a parent, the parent has to be told (C10)
 //@ func (a *Array) PopIterate(fn) (err)  serves C01 C06 C10
@@ -200,7 +209,7 @@ package atree
 //@   before Array.notifyParentIfNeeded: old(is(a.root, *ArrayDataSlab)) ==> as(a.root, *ArrayDataSlab).header.slabID == old(hdrOf(a.root).slabID)
 //@   before Array.notifyParentIfNeeded: as(a.root, *ArrayDataSlab).header.size == ite(as(a.root, *ArrayDataSlab).inlined, 17, 5)
 //@   before Array.notifyParentIfNeeded: old(is(a.root, *ArrayDataSlab)) ==> as(a.root, *ArrayDataSlab).inlined == old(as(a.root, *ArrayDataSlab).inlined) && as(a.root, *ArrayDataSlab).extraData == old(as(a.root, *ArrayDataSlab).extraData)
-//@   modifies heap, ghost.sto, ghost.stored, ghost.touched, ghost.notified, alloc
+//@   modifies heap, ghost.sto, ghost.issued, ghost.stored, ghost.touched, ghost.notified, ghost.updFail, alloc
 
 //@ # ---- stale handles (C11): the updater closure installed on a child re-validates before touching the parent.
 //@ # Free variables of the closure: a (parent), c (child notifier), vid, child, maxInlineSize.
@@ -229,7 +238,7 @@ package atree
 //@        !is(old(as(a.root, *ArrayDataSlab).elements[a.mutableElementIndex[vid]]), SlabIDStorable) &&
 //@        !is(old(as(a.root, *ArrayDataSlab).elements[a.mutableElementIndex[vid]]), Slab) ==> !found && err == nil && parentUntouched()
 //@   ensures[C11] !found && err == nil ==> parentUntouched()
-//@   modifies heap, ghost.sto, ghost.stored, ghost.touched, ghost.notified, alloc
+//@   modifies heap, ghost.sto, ghost.issued, ghost.stored, ghost.touched, ghost.notified, ghost.updFail, alloc
 
 //@ # Inlined() / Inlinable() of the two container kinds, read from the heap
 //@ pred inlinedC(c mutableValueNotifier) = ite(is(c, *Array), rootInlinedA(as(c, *Array).root), rootInlinedM(as(c, *OrderedMap).root))
